@@ -68,7 +68,13 @@ func regHandler(p string) http.Handler {
 }
 
 func regProbe(c *restful.Container, entry, path string) (proj string, class string) {
-	hr, err := buildRequest("GET", path, nil, nil, false)
+	// "#v": the request asks for the first of two routes on one method and path (header X-V: 1, see addDupRoutes);
+	// both routes serve it, so which one runs depends on their order
+	var hdr [][2]string
+	if strings.HasSuffix(path, "#v") {
+		path, hdr = strings.TrimSuffix(path, "#v"), [][2]string{{"X-V", "1"}}
+	}
+	hr, err := buildRequest("GET", path, hdr, nil, false)
 	if err != nil {
 		return "badreq", "other"
 	}
@@ -124,7 +130,7 @@ func newRegContainer(router string) *restful.Container {
 	return c
 }
 
-var regProbes = []string{"/a/dup", "/ab/dup", "/q/dup", "/dup", "/", "/a", "/a/", "/a/b", "/a/b/z", "/a/q/c", "/a/q/d", "/ab", "/ab/z", "/q", "/h/x", "/plain", "/a/q",
+var regProbes = []string{"/a/dup#v", "/ab/dup#v", "/q/dup#v", "/dup#v", "/a/dup", "/ab/dup", "/q/dup", "/dup", "/", "/a", "/a/", "/a/b", "/a/b/z", "/a/q/c", "/a/q/d", "/ab", "/ab/z", "/q", "/h/x", "/plain", "/a/q",
 	"/a/x", "/a/b/x", "/ab/x", "/a/q/c/x", "/q/x", "/a/dyn", "/a/dyn2", "/q/dyn2", "/ab/dyn2", "/users/7/a", "/users/7/b/x", "/x", "/a/b/dyn"}
 
 func runRegHistory(tw *traceWriter, h regHistory, router string) {
@@ -299,7 +305,7 @@ func runRegHistory(tw *traceWriter, h regHistory, router string) {
 			for _, en := range []string{"S", "D"} {
 				hp, _ := regProbe(c, en, path)
 				fp, fclass := regProbe(fresh, en, path)
-				tw.emit(map[string]interface{}{"e": "rprobe", "entry": en, "path": path, "h": hp, "f": fp, "fclass": fclass,
+				tw.emit(map[string]interface{}{"e": "rprobe", "entry": en, "path": strings.TrimSuffix(path, "#v"), "v": strings.HasSuffix(path, "#v"), "h": hp, "f": fp, "fclass": fclass,
 					"afterRemove": afterRemove, "canon": !strings.Contains(path, "//")})
 			}
 		}
@@ -405,7 +411,12 @@ func runRegistry(planPath, outPath string, seed int64) {
 				}
 				if len(cands) > 0 {
 					root := pick(r, cands)
-					h.Ops = append(h.Ops, []string{"dup", root}, []string{"undup", root})
+					h.Ops = append(h.Ops, []string{"dup", root})
+					if r.Intn(2) == 0 {
+						// another route of that WebService goes (or comes and goes) while the pair is there
+						h.Ops = append(h.Ops, []string{pick(r, []string{"unroute", "swap", "route"}), root})
+					}
+					h.Ops = append(h.Ops, []string{"undup", root})
 				}
 			case x < 89:
 				h.Ops = append(h.Ops, []string{"swap", livePick()})
